@@ -174,6 +174,10 @@ Section Contract.
   (* property C04's models of sortNondominated / sortLogNondominated as back-ends (Model/C05_Full.v) *)
   Definition model_sorter (nd : nd_choice) : sorter o := fun pop k => nd_fronts nd pop (Z.to_nat k).
 
+  (* the back-ends compute what property C04's models compute (whenever they return) *)
+  Definition backends_refine (s_std s_log : sorter o) (nd : nd_choice) (pop : list indV) (k : nat) : Prop :=
+    forall fronts, pick_sorter o s_std s_log nd pop (Z.of_nat k) = Some fronts -> nd_fronts nd pop k = Some fronts.
+
   (* the attribute `fitness.crowding_dist` of the j-th individual of `front` *)
   Definition cd_of (t : cdtab o) (front : list indV) (j : nat) : option (D o) :=
     match nth_error front j with Some x => t (uid x) | None => None end.
